@@ -42,6 +42,7 @@ def setup(rep, tier):
     rep.minimum('R15.3', 1)
     rep.minimum('R15.6', 4)
     rep.minimum('R15.4', 6)
+    rep.minimum('R15.5', 150)
 
 
 def isa_flags(prog, rel):
@@ -208,6 +209,7 @@ def check(rep, prog, tier):
     if nedges < 300:
         rep.unresolved('R15.3', 'only %d cross-unit call edges resolved (expected several hundred)' % nedges)
     r15_4(rep, prog)
+    r15_5(rep, prog)
 
 
 def _max_arch(cf, f):
@@ -563,3 +565,96 @@ def r15_4(rep, prog):
                     rep.violated('R15.4', inst, where, '%s clamps to %s (%s) but %s clamps to %s (%s): on saturating data the two kernels return different values, so they are not bit-identical' % (
                         c0.name, sorted(a['sat']), a['where'][0], f.name, sorted(b['sat']), ', '.join(b['where'][:3])), key='%s:%s:%s' % (name, f.name, dest))
     return n
+
+
+# ------------------------------------------------------------------ R15.5
+# Scalar skeleton of twin kernels.  A SIMD twin vectorises the inner loops but keeps the scalar
+# control and bookkeeping of its C counterpart: decision delays, gains, rate terms, shifts, energies
+# that are computed once per call or per sub-frame.  For every (C kernel, SIMD twin, scalar local
+# name) whose assignment sets agree on the reference tree (frozen in spec/c15_twin_scalars.json; the
+# names that legitimately differ - vectorised accumulators, loop counters - are simply not listed),
+# the two kernels, with the static helpers of their own files, must still assign that local from the
+# same set of intrinsic-free expressions.  This is sibling agreement, not equivalence: it is silent
+# when both twins change together and it cannot see the vector arithmetic.
+import json as _json
+import os as _os
+TWIN_SPEC = _os.path.join(_os.path.dirname(_os.path.dirname(_os.path.dirname(_os.path.abspath(__file__)))), 'spec', 'c15_twin_scalars.json')
+
+
+def scalar_assigns(prog, f):
+    out = {}
+    for g in _closure(prog, f):
+        for n in g.all_nodes():
+            if n[0] in ('assign', 'cassign'):
+                lv = sx.strip(n[1] if n[0] == 'assign' else n[2])
+                rhs = n[2] if n[0] == 'assign' else n[3]
+                if sx.kind(lv) != 'local':
+                    continue
+                l = g.locals.get(lv[2])
+                if not l or '__m' in l['type'] or '*' in l['type'] or '[' in l['type']:
+                    continue
+                if any(sx.kind(x) == 'call' and (sx.callee_name(x) or '').startswith(('_mm', '__builtin_ia32')) for x in sx.walk(rhs)):
+                    continue
+                op = '=' if n[0] == 'assign' else n[1]
+                out.setdefault(lv[1], {})[op + ' ' + sx.show(rhs)] = '%s:%s' % (g.file, sx.line(n))
+    return out
+
+
+def twin_pairs(prog):
+    for name, g in sorted(prog.globals.items()):
+        if not (g.get('pointee_func') and g.get('dims') and 'init' in g and g.get('defined')):
+            continue
+        ents = [e['addr'] for e in flatten(g['init']) if isinstance(e, dict) and e.get('isfunc')]
+        ents = list(dict.fromkeys(ents))
+        if len(ents) < 2 or not all(prog.has_fn(e) for e in ents):
+            continue
+        for tw in ents[1:]:
+            yield name, prog.fn(ents[0]), prog.fn(tw)
+
+
+def r15_5(rep, prog):
+    try:
+        spec = _json.load(open(TWIN_SPEC))
+    except (OSError, ValueError):
+        raise AnalysisBroken('spec/c15_twin_scalars.json missing')
+    want = spec.get(prog.config.split('+')[0])
+    if want is None:
+        return 0
+    n = 0
+    for tname, c0, tw in twin_pairs(prog):
+        names = want.get('%s|%s' % (c0.name, tw.name), [])
+        if not names:
+            continue
+        rep.functions.add(tw.name)
+        a, b = scalar_assigns(prog, c0), scalar_assigns(prog, tw)
+        for nm in names:
+            if nm not in a or nm not in b:
+                continue     # renamed or removed on one side: no longer comparable, not a disagreement
+            n += 1
+            inst = '%s:%s and %s assign the scalar `%s` from the same expressions' % (prog.config, c0.name, tw.name, nm)
+            if set(a[nm]) == set(b[nm]):
+                rep.holds('R15.5', inst, list(b[nm].values())[0], '%d assignment form(s)' % len(a[nm]))
+            else:
+                only_c = sorted(set(a[nm]) - set(b[nm]))
+                only_t = sorted(set(b[nm]) - set(a[nm]))
+                where = b[nm][only_t[0]] if only_t else list(b[nm].values())[0]
+                rep.violated('R15.5', inst, where, 'only in %s: %s; only in %s: %s - the twins no longer do the same scalar bookkeeping, so they cannot return identical results' % (
+                    c0.name, [x[:90] for x in only_c] or '-', tw.name, [x[:90] for x in only_t] or '-'), key='%s:%s:%s' % (c0.name, tw.name, nm))
+    return n
+
+
+if __name__ == '__main__':
+    # regenerate the frozen instance list from the current tree:  python3 -m sa.rules.c15
+    from ..facts import Program
+    out = {}
+    for cfg in ('float', 'fixed'):
+        p = Program(cfg)
+        d = {}
+        for tname, c0, tw in twin_pairs(p):
+            a, b = scalar_assigns(p, c0), scalar_assigns(p, tw)
+            names = sorted(k for k in set(a) & set(b) if set(a[k]) == set(b[k]) and len(k) > 1)
+            if names:
+                d['%s|%s' % (c0.name, tw.name)] = names
+        out[cfg] = d
+    _json.dump(out, open(TWIN_SPEC, 'w'), indent=1, sort_keys=True)
+    print({c: sum(len(v) for v in d.values()) for c, d in out.items()})
